@@ -97,7 +97,13 @@ func (svr *Server) handshakeDataChannel(wsc websocket.Conn) {
 	si, ok := svr.sessions.Load(channelID)
 	if ok {
 		session = si.(*Session)
-	} else {
+		// 通道号是可猜测的自增数字；数据通道只能加入由同一用户、对同一路径(http层已验证权限)建立的会话，
+		// 否则任何有权访问某一路径的调用者都能接收其他路径会话的媒体数据
+		if wsc.Path() != session.conn.Path() || wsc.Username() != session.conn.Username() {
+			session = nil
+		}
+	}
+	if session == nil {
 		code = 404
 		text = "NOT FOUND"
 	}
